@@ -16,7 +16,7 @@
 (* Events (ndjson, file named by env TRACE), produced by lib/pathset_common.py:   *)
 (*  line 1  {"ev":"meta","cfg":{..},"au":{hops:[..],allowed:[..],hits:[[..]],pen:[..],applies:[..]},..} *)
 (*  {"ev":"reset"}                                   a fresh path set, clock 0    *)
-(*  {"ev":"tick","f":{"k","ps":[{"id","exp"}]},"res",.. ,"s":{..},"sc":{id:..},"raw":{id:..}}          *)
+(*  {"ev":"tick","f":{"k","ps":[{"id","exp","ok"}]},"res",.. ,"s":{..},"sc":{id:..},"raw":{id:..}}     *)
 (*  {"ev":"report","i","res","s"}  {"ev":"ingest","res","s","sc","raw"}           *)
 (*  {"ev":"send","id","exp","s"}   {"ev":"adv","d","s"}                           *)
 EXTENDS PathSet, Json, IOUtils
@@ -51,6 +51,7 @@ Match(s) ==
   /\ now' = s.now
   /\ Len(cache') = Len(s.cache)
   /\ \A k \in 1..Len(s.cache) : /\ cache'[k].id = s.cache[k].id /\ cache'[k].exp = s.cache[k].exp
+                                /\ cache'[k].ok = s.cache[k].ok
                                 /\ AbsI(RelAt(cache'[k], now') - s.cache[k].rel) <= RelTol
   /\ active' = [id |-> s.active.id, exp |-> s.active.exp]
   /\ nextRefetch' = s.nr /\ nextIdle' = s.ni /\ failed' = s.failed /\ used' = s.used
